@@ -65,14 +65,6 @@ KANI['gcdo_numhash'] = {
     },
 }
 
-KANI['gcdo_gcd_ext'] = {
-    'package': 'dashu-int', 'target': 'integer/src/gcd_ops.rs', 'file': 'gcdo_gcd_ext.rs',
-    'harnesses': {
-        'vk_gcdo_gcd_ext_word_gcd_p1': {'kind': 'bounded', 'tier': 'thorough',
-                                        'bound': 'one concrete pair (3 and 4 words, gcd = one full word)'},
-    },
-}
-
 PROP_UNITS = {
     'C14': {'verus': ['num_order_ratio_fbig', 'num_order_int_float', 'num_hash_float'],
             'kani': ['gcdo_numhash'],
